@@ -411,6 +411,93 @@ FoldSeeds == {
   FoldSeed(<<"\"s\"", "[", "5", "]">>, "IndexOutOfBounds"),
   FoldSeed(<<"[", "0", ";", "0", "-", "1", "]">>, "NegativeLength")
 }
+\* Checker sub-suite: one-slot expressions (function literals, so that they can stand wherever a value can) whose
+\* body contains exactly one static error — one or more per error class of the checker, with the operand's type a
+\* plain type and a union (the union cases reach the code that asks every member) — and, as controls, well-typed
+\* expressions next to those errors (the same access through a union that HAS the element, re-binding a name with
+\* another type / as a function in a nested scope and demanding the new type).  Nested like the folding seeds:
+\* the error must be reported as an error value (any class) wherever the expression stands; the controls must be
+\* accepted wherever they stand.
+CheckerSeeds == {
+  FoldSeed(<<"(", "(", "p", ":", "(", "int", ",", "int", ")", "|", "(", "int", ",", "int", ",", "int", ")", ")", "->", "any", "{", "return", "p", ".", "2", "}", ")">>, "Rejected"),
+  FoldSeed(<<"(", "(", "p", ":", "(", "int", ",", "int", ")", "|", "(", "int", ",", "int", ",", "int", ")", ")", "->", "any", "{", "n", ":=", "p", ".", "2", ";", "return", "1", "}", ")">>, "Rejected"),
+  FoldSeed(<<"(", "(", "p", ":", "(", "int", ",", "int", ")", "|", "(", "int", ",", "int", ",", "int", ")", ")", "->", "any", "{", "return", "p", ".", "2", "+", "1", "}", ")">>, "Rejected"),
+  FoldSeed(<<"(", "(", "p", ":", "(", "int", ",", "int", ")", ")", "->", "any", "{", "return", "p", ".", "2", "}", ")">>, "Rejected"),
+  FoldSeed(<<"(", "1", ",", "1.5", ")", ".", "2">>, "Rejected"),
+  FoldSeed(<<"(", "(", "p", ":", "int", ")", "->", "any", "{", "return", "p", ".", "0", "}", ")">>, "Rejected"),
+  FoldSeed(<<"(", "(", "p", ":", "(", "int", ",", "int", ")", "|", "int", ")", "->", "any", "{", "return", "p", ".", "0", "}", ")">>, "Rejected"),
+  FoldSeed(<<"(", "(", "p", ":", "struct", "{", "a", ":", "int", "}", ")", "->", "any", "{", "return", "p", ".", "b", "}", ")">>, "Rejected"),
+  FoldSeed(<<"(", "(", "p", ":", "struct", "{", "a", ":", "int", "}", "|", "struct", "{", "b", ":", "int", "}", ")", "->", "any", "{", "return", "p", ".", "b", "}", ")">>, "Rejected"),
+  FoldSeed(<<"(", "(", "p", ":", "int", ")", "->", "any", "{", "return", "p", ".", "a", "}", ")">>, "Rejected"),
+  FoldSeed(<<"(", "(", "p", ":", "struct", "{", "a", ":", "int", "}", "|", "int", ")", "->", "any", "{", "return", "p", ".", "a", "}", ")">>, "Rejected"),
+  FoldSeed(<<"(", "(", "p", ":", "int", ")", "->", "any", "{", "return", "p", "[", "0", "]", "}", ")">>, "Rejected"),
+  FoldSeed(<<"(", "(", "p", ":", "[", "int", "]", "|", "int", ")", "->", "any", "{", "return", "p", "[", "0", "]", "}", ")">>, "Rejected"),
+  FoldSeed(<<"(", "(", "p", ":", "[", "int", "]", ",", "q", ":", "float", ")", "->", "any", "{", "return", "p", "[", "q", "]", "}", ")">>, "Rejected"),
+  FoldSeed(<<"(", "(", "p", ":", "[", "int", "]", ",", "q", ":", "int", "|", "float", ")", "->", "any", "{", "return", "p", "[", "q", "]", "}", ")">>, "Rejected"),
+  FoldSeed(<<"(", "(", "p", ":", "int", ")", "->", "any", "{", "return", "p", "[", "0", ":", "1", "]", "}", ")">>, "Rejected"),
+  FoldSeed(<<"(", "(", "p", ":", "[", "int", "]", "|", "int", ")", "->", "any", "{", "return", "p", "[", ":", "1", "]", "}", ")">>, "Rejected"),
+  FoldSeed(<<"(", "(", "p", ":", "int", ",", "q", ":", "string", ")", "->", "any", "{", "return", "p", "+", "q", "}", ")">>, "Rejected"),
+  FoldSeed(<<"(", "(", "p", ":", "int", "|", "string", ",", "q", ":", "int", ")", "->", "any", "{", "return", "p", "+", "q", "}", ")">>, "Rejected"),
+  FoldSeed(<<"(", "(", "p", ":", "[", "int", "]", ",", "q", ":", "[", "string", "]", ")", "->", "any", "{", "return", "p", "*", "q", "}", ")">>, "Rejected"),
+  FoldSeed(<<"(", "(", "p", ":", "mut", "int", ",", "q", ":", "float", ")", "->", "any", "{", "return", "p", "+=", "q", "}", ")">>, "Rejected"),
+  FoldSeed(<<"(", "(", "p", ":", "mut", "int", ",", "q", ":", "int", "|", "float", ")", "->", "any", "{", "return", "p", "=", "q", "}", ")">>, "Rejected"),
+  FoldSeed(<<"(", "(", "p", ":", "int", "|", "string", ")", "->", "int", "{", "return", "p", "}", ")">>, "Rejected"),
+  FoldSeed(<<"(", "(", "p", ":", "int", ")", "->", "string", "{", "if", "p", "==", "1", "{", "return", "p", "}", "return", "\"s\"", "}", ")">>, "Rejected"),
+  FoldSeed(<<"(", "(", "p", ":", "int", ")", "->", "int", "{", "if", "p", "==", "1", "{", "return", "p", "}", "}", ")">>, "Rejected"),
+  FoldSeed(<<"(", "(", "p", ":", "int", ")", "->", "int", "{", "loop", "{", "if", "p", "==", "1", "{", "break", "}", "return", "1", "}", "}", ")">>, "Rejected"),
+  FoldSeed(<<"(", "(", "p", ":", "int", ")", "->", "any", "{", "return", "p", "(", "1", ")", "}", ")">>, "Rejected"),
+  FoldSeed(<<"(", "(", "p", ":", "int", "|", "(", ")", "->", "int", ")", "->", "any", "{", "return", "p", "(", ")", "}", ")">>, "Rejected"),
+  FoldSeed(<<"(", "(", "p", ":", "(", "int", ")", "->", "int", ")", "->", "any", "{", "return", "p", "(", "1", ",", "1", ")", "}", ")">>, "Rejected"),
+  FoldSeed(<<"(", "(", "p", ":", "(", "int", ")", "->", "int", ")", "->", "any", "{", "return", "p", "(", ")", "}", ")">>, "Rejected"),
+  FoldSeed(<<"(", "(", "p", ":", "(", "int", ")", "->", "int", ")", "->", "any", "{", "return", "p", "(", "1.5", ")", "}", ")">>, "Rejected"),
+  FoldSeed(<<"(", "(", "p", ":", "(", "int", ")", "->", "int", ",", "q", ":", "int", "|", "float", ")", "->", "any", "{", "return", "p", "(", "q", ")", "}", ")">>, "Rejected"),
+  FoldSeed(<<"(", "(", "p", ":", "(", "int", ")", "->", "int", "|", "(", "int", ",", "int", ")", "->", "int", ")", "->", "any", "{", "return", "p", "(", "1", ")", "}", ")">>, "Rejected"),
+  FoldSeed(<<"(", "(", "p", ":", "int", ",", "q", ":", "(", "int", ",", "int", ")", "->", "int", ")", "->", "any", "{", "return", "p", "$", "0", "q", "}", ")">>, "Rejected"),
+  FoldSeed(<<"(", "(", "p", ":", "int", ")", "->", "any", "{", "return", "p", "$+", "}", ")">>, "Rejected"),
+  FoldSeed(<<"(", "(", "p", ":", "int", ")", "->", "any", "{", "(", "y", ",", "s", ")", ":=", "p", ";", "return", "y", "}", ")">>, "Rejected"),
+  FoldSeed(<<"(", "(", "p", ":", "(", "int", ",", "int", ")", "|", "(", "int", ",", "int", ",", "int", ")", ")", "->", "any", "{", "(", "y", ",", "s", ")", ":=", "p", ";", "return", "y", "}", ")">>, "Rejected"),
+  FoldSeed(<<"(", "(", "p", ":", "(", "int", ",", "int", ",", "int", ")", ")", "->", "any", "{", "(", "y", ",", "s", ")", ":=", "p", ";", "return", "y", "}", ")">>, "Rejected"),
+  FoldSeed(<<"(", "(", "p", ":", "int", ")", "->", "any", "{", "if", "p", "{", "return", "1", "}", "return", "0", "}", ")">>, "Rejected"),
+  FoldSeed(<<"(", "(", "p", ":", "int", "|", "bool", ")", "->", "any", "{", "while", "p", "{", "return", "1", "}", "return", "0", "}", ")">>, "Rejected"),
+  FoldSeed(<<"(", "(", "p", ":", "string", ")", "->", "any", "{", "return", "-", "p", "}", ")">>, "Rejected"),
+  FoldSeed(<<"(", "(", "p", ":", "int", "|", "string", ")", "->", "any", "{", "return", "!", "p", "}", ")">>, "Rejected"),
+  FoldSeed(<<"(", "(", "p", ":", "int", ")", "->", "any", "{", "return", "*", "p", "}", ")">>, "Rejected"),
+  FoldSeed(<<"(", "(", "p", ":", "float", ")", "->", "any", "{", "return", "mut", "int", "p", "}", ")">>, "Rejected"),
+  FoldSeed(<<"(", "(", "p", ":", "int", "|", "float", ")", "->", "any", "{", "return", "mut", "int", "p", "}", ")">>, "Rejected"),
+  FoldSeed(<<"(", "(", "p", ":", "int", "|", "string", ")", "->", "any", "{", "return", "match", "p", "{", "y", ":", "int", "=>", "1", ",", "}", "}", ")">>, "Rejected"),
+  FoldSeed(<<"(", "(", "p", ":", "int", ")", "->", "any", "{", "return", "match", "p", "{", "1", "=>", "1", ",", "}", "}", ")">>, "Rejected"),
+  FoldSeed(<<"(", "(", "p", ":", "int", ")", "->", "any", "{", "return", "p", "+", "nv", "}", ")">>, "Rejected"),
+  FoldSeed(<<"(", "(", "p", ":", "int", ")", "->", "any", "{", "if", "y", ":", "int", "=", "p", "{", "}", "return", "y", "}", ")">>, "Rejected"),
+  FoldSeed(<<"(", "(", "p", ":", "int", ")", "->", "any", "{", "loop", "{", "z", ":=", "(", ")", "->", "any", "{", "break", "}", ";", "break", "}", "return", "1", "}", ")">>, "Rejected"),
+  FoldSeed(<<"(", "(", "p", ":", "int", ")", "->", "any", "{", "if", "p", "==", "1", "{", "continue", "}", "return", "1", "}", ")">>, "Rejected"),
+  FoldSeed(<<"(", "(", "p", ":", "float", ")", "->", "any", "{", "return", "[", "0", ";", "p", "]", "}", ")">>, "Rejected"),
+  FoldSeed(<<"(", "(", "p", ":", "[", "int", "]", ",", "q", ":", "(", "string", ")", "->", "int", ")", "->", "any", "{", "return", "p", "~", "@", "q", "}", ")">>, "Rejected"),
+  FoldSeed(<<"(", "(", "p", ":", "[", "int", "]", ",", "q", ":", "(", "int", ")", "->", "int", ")", "->", "any", "{", "return", "p", "~", "?", "q", "}", ")">>, "Rejected"),
+  FoldSeed(<<"(", "(", "p", ":", "[", "int", "]", ",", "q", ":", "int", ")", "->", "any", "{", "return", "p", "~", "@", "q", "}", ")">>, "Rejected"),
+  FoldSeed(<<"(", "(", "p", ":", "[", "int", "]", ",", "q", ":", "(", "int", ")", "->", "int", ")", "->", "any", "{", "return", "p", "~", "$", "0", "q", "}", ")">>, "Rejected"),
+  FoldSeed(<<"(", "(", "p", ":", "[", "int", "]", ",", "q", ":", "(", "int", ",", "int", ")", "->", "string", ")", "->", "any", "{", "return", "p", "~", "\\", "q", "}", ")">>, "Rejected"),
+  FoldSeed(<<"99999999999999999999">>, "Rejected")
+}
+ValidSeeds == {
+  FoldSeed(<<"(", "(", "f", ":", "int", ")", "->", "any", "{", "f", ":=", "(", ")", "->", "int", "{", "return", "1", "}", ";", "y", ":=", "f", "(", ")", ";", "return", "y", "}", ")">>, "Accepted"),
+  FoldSeed(<<"(", "(", "p", ":", "int", ")", "->", "any", "{", "f", ":=", "5", ";", "f", ":=", "(", ")", "->", "int", "{", "return", "1", "}", ";", "y", ":=", "f", "(", ")", ";", "return", "y", "}", ")">>, "Accepted"),
+  FoldSeed(<<"(", "(", "p", ":", "int", ")", "->", "any", "{", "f", ":=", "5", ";", "f", ":=", "(", ")", "->", "(", "int", ",", "int", ")", "{", "return", "(", "1", ",", "1", ")", "}", ";", "(", "y", ",", "s", ")", ":=", "f", "(", ")", ";", "return", "y", "}", ")">>, "Accepted"),
+  FoldSeed(<<"(", "(", "p", ":", "int", ")", "->", "any", "{", "f", ":=", "(", ")", "->", "int", "{", "return", "1", "}", ";", "f", ":=", "5", ";", "return", "f", "+", "1", "}", ")">>, "Accepted"),
+  FoldSeed(<<"(", "(", "p", ":", "int", ")", "->", "any", "{", "f", ":=", "5", ";", "{", "f", ":=", "(", ")", "->", "int", "{", "return", "1", "}", ";", "y", ":=", "f", "(", ")", "}", "return", "f", "+", "1", "}", ")">>, "Accepted"),
+  FoldSeed(<<"mod", "{", "f", ":=", "5", ";", "f", ":=", "(", ")", "->", "int", "{", "return", "1", "}", ";", "y", ":=", "f", "(", ")", "}">>, "Accepted"),
+  FoldSeed(<<"(", "(", "p", ":", "int", ")", "->", "any", "{", "x", ":=", "1", ";", "x", ":=", "\"s\"", ";", "return", "x", "+", "\"s\"", "}", ")">>, "Accepted"),
+  FoldSeed(<<"(", "(", "p", ":", "(", "int", ",", "int", ")", "|", "(", "int", ",", "int", ",", "int", ")", ")", "->", "any", "{", "y", ":=", "p", ".", "1", ";", "return", "y", "}", ")">>, "Accepted"),
+  FoldSeed(<<"(", "(", "p", ":", "struct", "{", "a", ":", "int", "}", "|", "struct", "{", "a", ":", "float", ",", "b", ":", "int", "}", ")", "->", "any", "{", "y", ":=", "p", ".", "a", ";", "return", "y", "}", ")">>, "Accepted"),
+  FoldSeed(<<"(", "(", "p", ":", "[", "int", "]", "|", "string", ")", "->", "any", "{", "y", ":=", "p", "[", "0", "]", ";", "return", "y", "}", ")">>, "Accepted"),
+  FoldSeed(<<"(", "(", "p", ":", "[", "int", "]", "|", "[", "string", "]", ")", "->", "any", "{", "y", ":=", "p", "[", "0", ":", "1", "]", ";", "return", "y", "}", ")">>, "Accepted"),
+  FoldSeed(<<"(", "(", "p", ":", "(", "int", ")", "->", "int", "|", "(", "int", ")", "->", "float", ")", "->", "any", "{", "y", ":=", "p", "(", "1", ")", ";", "return", "y", "}", ")">>, "Accepted"),
+  FoldSeed(<<"(", "(", "p", ":", "mut", "int", "|", "mut", "float", ")", "->", "any", "{", "y", ":=", "*", "p", ";", "return", "y", "}", ")">>, "Accepted"),
+  FoldSeed(<<"(", "(", "p", ":", "int", "|", "float", ")", "->", "any", "{", "y", ":=", "-", "p", ";", "return", "y", "}", ")">>, "Accepted"),
+  FoldSeed(<<"(", "(", "p", ":", "int", "|", "bool", ")", "->", "any", "{", "y", ":=", "!", "p", ";", "return", "y", "}", ")">>, "Accepted"),
+  FoldSeed(<<"(", "(", "p", ":", "int", ")", "->", "any", "{", "(", "y", ",", "s", ")", ":=", "(", "p", ",", "(", ")", "->", "int", "{", "return", "1", "}", ")", ";", "n", ":=", "s", "(", ")", ";", "return", "n", "+", "1", "}", ")">>, "Accepted"),
+  FoldSeed(<<"(", "(", "p", ":", "int", ")", "->", "any", "{", "s", ":=", "(", "(", ")", "->", "int", "{", "return", "p", "}", ")", ";", "n", ":=", "s", "(", ")", ";", "return", "n", "+", "1", "}", ")">>, "Accepted")
+}
+
 \* the implementation does not fold ** at all: the negative exponent is a run-time error (C02/C08);
 \* parsing must still be total on it
 MinInt == <<"(", "0", "-", "9223372036854775807", "-", "1", ")">>
@@ -484,7 +571,9 @@ FoldCase(ws, seed) ==
   [ws |-> [i \in 1..Len(ws) |-> ws[i].name],
    ts |-> IF Len(ws) = 1 THEN Fill(ws[1].tpl, seed.ts)
           ELSE Fill(ws[1].tpl, <<"(">> \o Fill(ws[2].tpl, seed.ts) \o <<")">>),
-   expect |-> IF \A i \in 1..Len(ws) : ws[i] \in LiveWrappers THEN "Error:" \o seed.class ELSE "any"]
+   expect |-> IF seed.class = "Accepted" THEN "Program"
+              ELSE IF \A i \in 1..Len(ws) : ws[i] \in LiveWrappers
+                   THEN (IF seed.class = "Rejected" THEN "Error" ELSE "Error:" \o seed.class) ELSE "any"]
 
 \* wrappers whose slot is an expression position (the inner program can be parenthesised into it)
 ExprWrapperNames == {"paren", "array", "repeat_value", "tuple", "struct", "mut", "and_rhs", "or_rhs",
